@@ -19,10 +19,12 @@ TARGETS = ['valjean.eponine.dataset:Dataset.__init__', 'valjean.eponine.dataset:
            'valjean.eponine.dataset:Dataset._check_datasets_consistency']
 BOUNDS = {
     'quick': {'shapes': ['()', '(2,)', '(1,2)'], 'bins': ['edges', 'centres', 'none'],
+              'mask_jobs': '1-d, 2 cells, chains of 3 operations out of mask/add/mul/sub-const/copy/squeeze/slice, all mask patterns',
               'chain_length': 1, 'values': 'finite reals of either sign (divisors != 0)',
               'errors': 'finite reals >= 0'},
     'thorough': {'shapes': ['()', '(1,)', '(2,)', '(3,)', '(2,2)', '(1,2)', '(2,1,2)'],
                  'bins': ['edges', 'centres', 'none'], 'chain_length': 2,
+                 'mask_jobs': '1-d, 2-3 cells, chains of 3-4 operations, all mask patterns',
                  'values': 'finite reals of either sign (divisors != 0)', 'errors': 'finite reals >= 0'},
 }
 ASSUMPTIONS = [
@@ -32,7 +34,7 @@ ASSUMPTIONS = [
     'a symbolic scalar constant is passed as a 0-d array in symbolic mode (a Python float in replay)',
     'values and errors finite; errors >= 0; dataset divisors have no zero cell; constant divisor != 0',
 ]
-OUTSIDE = ['numpy.ma masked arrays (mask()): numpy.ma internals coerce cells to bool',
+OUTSIDE = ['arithmetic formulas on masked cells (mask() jobs use fixed cell values with symbolic mask bits and operation sequences)',
            'shapes beyond those listed, chains longer than the bound', 'NaN/inf cells in arithmetic']
 EXPLANATION = ('bounded symbolic execution (engine symrun) of the real Dataset arithmetic on numpy object '
                'arrays of z3-backed extended reals; each clause is decided by z3 (QF_NRA) per path')
@@ -254,6 +256,80 @@ def make_harness(shape, binkind, chain):
     return harness
 
 
+def _ma_snapshot(ds):
+    return (np.ma.getdata(ds.value).copy(), np.ma.getmaskarray(ds.value).copy(),
+            np.ma.getdata(ds.error).copy(), np.ma.getmaskarray(ds.error).copy(),
+            type(ds.value), OrderedDict((k, np.array(b, copy=True)) for k, b in ds.bins.items()), ds.name, ds.what)
+
+
+def _ma_same(ds, snap):
+    v, mv, e, me, tp, bins, name, what = snap
+    return (type(ds.value) is tp and np.array_equal(np.ma.getdata(ds.value), v)
+            and np.array_equal(np.ma.getmaskarray(ds.value), mv)
+            and np.array_equal(np.ma.getdata(ds.error), e) and np.array_equal(np.ma.getmaskarray(ds.error), me)
+            and list(ds.bins) == list(bins) and all(np.array_equal(ds.bins[k], bins[k]) for k in bins)
+            and ds.name == name and ds.what == what)
+
+
+MASK_OPS = ['mask', 'add_ds', 'mul_ds', 'sub_c', 'copy', 'squeeze', 'slice']
+
+
+def make_mask_harness(n, chain):
+    """mask(): numpy.ma needs concrete cells, so values are fixed distinct floats; the mask bits
+    (and the operation sequence) are symbolic and forked by the solver.  Asserted: operands (data
+    AND masks) are never modified, results are well formed and masked exactly where asked."""
+    def harness(ex):
+        from valjean.eponine.dataset import Dataset
+        vals = np.arange(1., n + 1.)
+        errs = np.arange(1., n + 1.) / 8
+        bins = OrderedDict([('k0', np.arange(0., n + 1.))])
+        ds = Dataset(vals.copy(), errs.copy(), bins=bins, name='left', what='w')
+        live = [ds]
+        for step in range(chain):
+            op = MASK_OPS[ex.choice(len(MASK_OPS), f'mop{step}')]
+            ex.note(f'mop{step}', op)
+            cur = live[-1]
+            m = cur.value.shape[0] if cur.value.ndim else 0
+            snaps = [_ma_snapshot(d) for d in live]
+            if op == 'mask':
+                bits = [ex.bool(f'm{step}_{i}') for i in range(m)]
+                mask = np.array([bool(b) for b in bits], dtype=bool)
+                res = cur.mask(mask)
+                ok = isinstance(res, Dataset) and np.shape(res.value) == np.shape(cur.value) and \
+                    np.shape(res.error) == np.shape(cur.value)
+                ex.check(ok, 'mask:well-formed')
+                if ok:
+                    want = np.ma.getmaskarray(cur.value) | mask
+                    ex.check(np.array_equal(np.ma.getmaskarray(res.value), want) and
+                             np.array_equal(np.ma.getmaskarray(res.error), want), 'mask:masked-cells')
+                    ex.check(np.array_equal(np.ma.getdata(res.value), np.ma.getdata(cur.value)), 'mask:data-kept')
+                    ex.check(list(res.bins) == list(cur.bins) and
+                             all(np.array_equal(res.bins[k], cur.bins[k]) for k in cur.bins), 'mask:bins-kept')
+            elif op == 'add_ds':
+                res = cur + Dataset(np.ones(m), np.ones(m), name='o')
+            elif op == 'mul_ds':
+                res = cur * Dataset(np.full(m, 2.), np.ones(m), name='o')
+            elif op == 'sub_c':
+                res = cur - 1.5
+            elif op == 'copy':
+                res = cur.copy()
+            elif op == 'squeeze':
+                res = cur.squeeze()
+            else:
+                res = cur[1:] if cur.value.ndim == 1 else cur
+            for d, sn in zip(live, snaps):
+                ex.check(_ma_same(d, sn), f'{op}:earlier-datasets-unchanged')
+            if not isinstance(res, Dataset) or res.value.ndim != 1:
+                return
+            live.append(res)
+    return harness
+
+
+def _job_mask(n, chain, timeout_ms, seed=0):
+    return run_sym('m', make_mask_harness(n, chain), timeout_ms=timeout_ms, seed=seed,
+                   require_checks=['mask:masked-cells'])
+
+
 def _job(shape, binkind, chain, timeout_ms, seed=0):
     return run_sym(f'{shape}-{binkind}-chain{chain}', make_harness(shape, binkind, chain),
                    timeout_ms=timeout_ms, seed=seed)
@@ -269,7 +345,10 @@ def jobs(tier):
                 continue
             out.append((f'{shape}-{bk}-chain1', _job,
                         dict(shape=shape, binkind=bk, chain=1, timeout_ms=20000 if tier == 'quick' else 120000)))
+    out.append(('mask-n2-chain3', _job_mask, dict(n=2, chain=3, timeout_ms=20000)))
     if tier == 'thorough':
+        out.append(('mask-n3-chain3', _job_mask, dict(n=3, chain=3, timeout_ms=20000)))
+        out.append(('mask-n2-chain4', _job_mask, dict(n=2, chain=4, timeout_ms=20000)))
         for shape in [(2,), (1, 2)]:
             out.append((f'{shape}-edges-chain2', _job, dict(shape=shape, binkind='edges', chain=2, timeout_ms=120000)))
     return out
@@ -277,6 +356,9 @@ def jobs(tier):
 
 def replay(rp):
     name = rp['job']
+    if name.startswith('mask-'):
+        n, chain = name.split('-')[1:]
+        return replay_sym(make_mask_harness(int(n[1:]), int(chain.replace('chain', ''))), rp['inputs'])
     shape_s, rest = name.rsplit('-', 2)[0], name.rsplit('-', 2)[1:]
     shape = eval(shape_s)
     return replay_sym(make_harness(shape, rest[0], int(rest[1].replace('chain', ''))), rp['inputs'])
